@@ -88,7 +88,11 @@ pub fn bellerophon<F: RawFloat, const FORMAT: u128>(num: &Number, lossy: bool) -
     // Track errors to as a factor of unit in last-precision.
     let mut errors: u32 = 0;
     if num.many_digits {
-        errors += error_halfscale();
+        // The truncated digits make the true mantissa up to one unit larger. In units of the
+        // last place of the 64-bit normalized mantissa (what `errors` is scaled in), that is
+        // up to `2^(leading_zeros + 1)` units, not half a unit.
+        let shift = num.mantissa.leading_zeros() + 1;
+        errors += error_scale() << if shift < 20 { shift } else { 20 };
     }
 
     // Multiply by the small power.
@@ -271,8 +275,9 @@ fn error_is_accurate<F: RawFloat>(errors: u32, fp: &ExtendedFloat80) -> bool {
         // Round-to-nearest, need to check if we're close to halfway.
         // IE, b10100 | 100000, where `|` signifies the truncation point.
         let halfway = lower_n_halfway(maskbits);
-        let cmp1 = halfway.wrapping_sub(errors) < extra;
-        let cmp2 = extra < halfway.wrapping_add(errors);
+        // NOTE: `errors` may exceed `halfway`, so compare without subtracting.
+        let cmp1 = halfway < extra.saturating_add(errors);
+        let cmp2 = extra < halfway.saturating_add(errors);
 
         // If both comparisons are true, we have significant rounding error,
         // and the value cannot be exactly represented. Otherwise, the
